@@ -386,14 +386,14 @@ func (g *cgen) vec(t *Type, depth int) Expr {
 			return &Builtin{Name: n, Args: []Expr{g.expr(t, depth-1)}, T: t}
 		}
 		return &Builtin{Name: n, Args: []Expr{g.expr(t, depth-1), g.expr(t, depth-1)}, T: t}
+	case r < 94 && r >= 80 && t.S == F32 && t.N == 3 && !g.noBuiltin && !g.is("const.builtin.cross") && !g.is("builtin.cross"):
+		g.class("builtin:cross:vec")
+		return &Builtin{Name: "cross", Args: []Expr{g.expr(t, depth-1), g.expr(t, depth-1)}, T: t}
 	case r < 85 && t.S == Bool:
 		k := []Kind{I32, U32, F32}[g.intn(3, "cvck")]
 		op := cmpOps[g.intn(6, "cvcmp")]
 		g.class("cmp" + op + ":vec")
 		return &Binary{Op: op, L: g.expr(Vec(t.N, k), depth-1), R: g.expr(Vec(t.N, k), depth-1), T: t}
-	case r < 94 && r >= 90 && t.S == F32 && t.N == 3 && !g.noBuiltin && !g.is("const.builtin.cross") && !g.is("builtin.cross"):
-		g.class("builtin:cross:vec")
-		return &Builtin{Name: "cross", Args: []Expr{g.expr(t, depth-1), g.expr(t, depth-1)}, T: t}
 	case r < 90:
 		g.class("select:vec")
 		return &Builtin{Name: "select", Args: []Expr{g.expr(t, depth-1), g.expr(t, depth-1), g.expr(Vec(t.N, Bool), depth-1)}, T: t}
@@ -468,7 +468,7 @@ func GenConstCase(t *rapid.T, off func(string) bool) *ConstCase {
 		g.nodes += 4
 	default:
 		var tt *Type
-		switch g.intn(10, "tk") {
+		switch g.intn(13, "tk") {
 		case 0, 1:
 			tt = TI32
 		case 2, 3:
@@ -477,8 +477,10 @@ func GenConstCase(t *rapid.T, off func(string) bool) *ConstCase {
 			tt = TF32
 		case 6:
 			tt = TBool
-		case 7:
+		case 7, 10, 11:
 			tt = Vec(2+g.intn(3, "vn"), []Kind{I32, U32, F32}[g.intn(3, "vk")])
+		case 12:
+			tt = Vec(3, F32)
 		case 8:
 			tt = TAbsI
 		default:
